@@ -204,8 +204,8 @@ def result_digest(res):
 
 
 def make_case(rng):
-    form = ['cold', 'warm', 'props', 'props', 'hybrid', 'hybrid'][
-        int(rng.integers(0, 6))]
+    form = ['cold', 'warm', 'props', 'props', 'hybrid', 'hybrid', 'KM_est',
+            'HY_est'][int(rng.integers(0, 8))]
     if form == 'props' and rng.random() < 0.7:
         # tie-free data for the independent reference PAM
         X, info = cc.gen_data(rng, nmax=40, nmin=3, dtype=np.float64,
@@ -236,6 +236,18 @@ def execute(X, mname, k, iters, form, seed, inds, props, rs=None):
         return kmedoids.kmedoids(X, m, cluster_center_inds=list(inds),
                                  proposals=list(props), n_iters=iters,
                                  random_state=rs)
+    if form == 'KM_est':
+        # the estimator has no random_state argument: warm start, so that the
+        # only randomness is the proposals (seeded through numpy's global RNG
+        # is NOT promised; reproducibility is therefore not asserted for it)
+        e = kmedoids.KMedoids(m, n_clusters=k, n_iters=iters)
+        e.fit(X, cluster_center_inds=list(inds))
+        return e.result_
+    if form == 'HY_est':
+        e = hybrid.KHybrid(m, n_clusters=k, kmedoids_updates=iters,
+                           random_state=rs, mpi_mode=False)
+        e.fit(X)
+        return e.result_
     return hybrid.hybrid(X, m, n_iters=iters, n_clusters=k, random_state=rs)
 
 
@@ -258,7 +270,7 @@ def run_case(ctx, kind, rng, idx):
         return
     sweeps = ctx.sweeps
     K = len(res.center_indices)
-    if form != 'hybrid' and K != k:
+    if form not in ('hybrid', 'HY_est') and K != k:
         ctx.violation('pam.cluster-count-changed', 'asked %d got %d' % (k, K))
     if len(sweeps) != iters:
         ctx.violation('pam.sweep-count', 'asked %d sweeps, observed %d' % (
@@ -267,7 +279,7 @@ def run_case(ctx, kind, rng, idx):
     cc.check_result(ctx, X, mname, res, 'pam.result')
     final_cost = cc.msq(res.distances)
     # hybrid never worse than the k-centers it starts from
-    if form == 'hybrid':
+    if form in ('hybrid', 'HY_est'):
         kc = kcenters.kcenters(X, cc.metric_arg(mname), n_clusters=k)
         c0 = cc.msq(kc.distances)
         ctx.count('hybrid_vs_kcenters')
@@ -285,7 +297,7 @@ def run_case(ctx, kind, rng, idx):
     ctx.sweeps = []
     res2 = execute(X, mname, k, iters, form, seed, inds, props)
     ctx.count('repro_pairs')
-    if result_digest(res) != result_digest(res2):
+    if form != 'KM_est' and result_digest(res) != result_digest(res2):
         ctx.violation('pam.not-reproducible',
                       'same seed %d gave different results' % seed)
     # RandomState object / None keep the guarantees
@@ -301,7 +313,7 @@ def run_case(ctx, kind, rng, idx):
         cc.check_result(ctx, X, mname, res3, 'pam.result-rs')
         ctx.count('randomstate_or_none_runs')
     # one more sweep never costs more (fixed int seed)
-    if idx % 2 == 0:
+    if idx % 2 == 0 and form != 'KM_est':
         ctx.sweeps = []
         res4 = execute(X, mname, k, iters + 1, form, seed, inds, props)
         ctx.count('n_plus_one_pairs')
